@@ -183,7 +183,10 @@ pub fn features(d: &Doc) -> Vec<String> {
         }
     };
     walk_blocks(&d.blocks, &mut |b: &Block, _| {
-        walk_toks(&b.t, &mut |t| on_tok(t, false, &mut f));
+        // the body of a code block is not inline text: F-C01-1 (verbatim text) does not apply to it
+        if b.k != "Code" {
+            walk_toks(&b.t, &mut |t| on_tok(t, false, &mut f));
+        }
         for r in b.rows.iter() {
             for c in r.iter() {
                 walk_toks(c, &mut |t| on_tok(t, true, &mut f));
